@@ -182,7 +182,144 @@ def k_temp(src, tree):
     return apply_edits(src, edits) if edits else None
 
 
-KINDS = {"rename": k_rename, "swapeq": k_swapeq, "invert": k_invert, "temp": k_temp}
+_KW_NAMES = None
+
+
+def _keyword_names():
+    """every name used as a keyword argument anywhere in the repository (incl. tests): such parameters keep their names"""
+    global _KW_NAMES
+    if _KW_NAMES is None:
+        names = set()
+        for root, _, fs in os.walk("/repo"):
+            if "/.git" in root or "/ply" in root:
+                continue
+            for f in fs:
+                if f.endswith(".py"):
+                    try:
+                        t = ast.parse(open(os.path.join(root, f), "rb").read().decode("utf-8-sig"))
+                    except SyntaxError:
+                        continue
+                    for n in ast.walk(t):
+                        if isinstance(n, ast.keyword) and n.arg:
+                            names.add(n.arg)
+        _KW_NAMES = names
+    return _KW_NAMES
+
+
+def k_params(src, tree):
+    """rename the positional parameters (not self/cls, not *args/**kwargs, not names used as keywords anywhere) of every function"""
+    lines = src.splitlines(keepends=True)
+    starts = offs(lines)
+    kw = _keyword_names()
+    edits = []
+    for fn in ast.walk(tree):
+        if not isinstance(fn, ast.FunctionDef) or fn.args.kwarg or fn.name.startswith("t_"):
+            continue
+        if any(isinstance(n, (ast.FunctionDef, ast.Lambda, ast.ClassDef)) and n is not fn for n in ast.walk(fn)):
+            continue
+        cand = [a for a in fn.args.args if a.arg not in ("self", "cls") and a.arg not in kw]
+        if not cand:
+            continue
+        names = {a.arg for a in cand}
+        # skip if a comprehension / global / nonlocal re-binds one of them
+        if any(isinstance(n, (ast.Global, ast.Nonlocal)) for n in ast.walk(fn)):
+            continue
+        for a in cand:
+            p0 = pos(lines, starts, a.lineno, a.col_offset)
+            edits.append((p0, p0 + len(a.arg), a.arg + "_p"))
+        for n in ast.walk(fn):
+            if isinstance(n, ast.Name) and n.id in names:
+                p0 = pos(lines, starts, n.lineno, n.col_offset)
+                edits.append((p0, p0 + len(n.id), n.id + "_p"))
+    return apply_edits(src, edits) if edits else None
+
+
+_FLIP = {ast.Lt: ">", ast.Gt: "<", ast.LtE: ">=", ast.GtE: "<="}
+
+
+def k_cmpflip(src, tree):
+    lines = src.splitlines(keepends=True)
+    starts = offs(lines)
+    edits, taken = [], []
+    for n in ast.walk(tree):
+        if isinstance(n, ast.Compare) and len(n.ops) == 1 and type(n.ops[0]) in _FLIP and _simple(n.left) and _simple(n.comparators[0]):
+            if sum(1 for side in (n.left, n.comparators[0]) for x in ast.walk(side) if isinstance(x, ast.Call)) > 1:
+                continue
+            a = pos(lines, starts, n.lineno, n.col_offset)
+            b = pos(lines, starts, n.end_lineno, n.end_col_offset)
+            if any(a < tb and ta < b for ta, tb in taken):
+                continue
+            l = ast.get_source_segment(src, n.left)
+            r = ast.get_source_segment(src, n.comparators[0])
+            if l is None or r is None or "\n" in l + r:
+                continue
+            edits.append((a, b, f"{r} {_FLIP[type(n.ops[0])]} {l}"))
+            taken.append((a, b))
+    return apply_edits(src, edits) if edits else None
+
+
+def k_elseret(src, tree):
+    """`if c: ...; return X` + `else: BODY`  ->  drop the `else:` and dedent BODY (the if-branch always leaves)"""
+    lines = src.splitlines(keepends=True)
+    starts = offs(lines)
+    edits, taken = [], []
+    for n in ast.walk(tree):
+        if isinstance(n, ast.If) and n.orelse and not (len(n.orelse) == 1 and isinstance(n.orelse[0], ast.If)) and isinstance(n.body[-1], (ast.Return, ast.Raise, ast.Continue, ast.Break)):
+            else_line = None
+            for ln in range(n.orelse[0].lineno - 1, n.body[-1].end_lineno, -1):
+                if lines[ln - 1].strip().rstrip("\r\n").rstrip() == "else:":
+                    else_line = ln
+                    break
+            if else_line is None:
+                continue
+            a = starts[else_line - 1]
+            b = starts[n.orelse[-1].end_lineno - 1] + len(lines[n.orelse[-1].end_lineno - 1])
+            if any(a < tb and ta < b for ta, tb in taken):
+                continue
+            head = lines[n.lineno - 1]
+            if not head.lstrip().startswith("if "):
+                continue
+            body_lines = lines[else_line: n.orelse[-1].end_lineno]
+            ind_else = len(lines[else_line - 1]) - len(lines[else_line - 1].lstrip())
+            ind_body = len(lines[n.orelse[0].lineno - 1]) - len(lines[n.orelse[0].lineno - 1].lstrip())
+            d = ind_body - ind_else
+            if d <= 0:
+                continue
+            # multi-line strings inside the block would be corrupted by dedenting: skip blocks containing triple quotes
+            if any('"""' in x or "'''" in x for x in body_lines):
+                continue
+            new = "".join((x[d:] if x.strip() else x) for x in body_lines)
+            edits.append((a, b, new))
+            taken.append((a, b))
+    return apply_edits(src, edits) if edits else None
+
+
+def k_fstring(src, tree):
+    """'..{}..'.format(a, b) with plain positional fields -> f'..{a}..{b}..'"""
+    lines = src.splitlines(keepends=True)
+    starts = offs(lines)
+    edits, taken = [], []
+    for n in ast.walk(tree):
+        if isinstance(n, ast.Call) and isinstance(n.func, ast.Attribute) and n.func.attr == "format" and isinstance(n.func.value, ast.Constant) and isinstance(n.func.value.value, str) \
+                and not n.keywords and n.args and n.lineno == n.end_lineno:
+            tmpl = n.func.value.value
+            if tmpl.count("{}") != len(n.args) or "{" in tmpl.replace("{}", "") or "}" in tmpl.replace("{}", "") or "\\" in tmpl or '"' in tmpl or "\n" in tmpl:
+                continue
+            segs = [ast.get_source_segment(src, a) for a in n.args]
+            if any(s is None or '"' in s or "{" in s or "}" in s or "\\" in s or "\n" in s or ":" in s or "!" in s for s in segs):
+                continue
+            parts = tmpl.split("{}")
+            body = "".join(p + ("{" + segs[i] + "}" if i < len(segs) else "") for i, p in enumerate(parts))
+            a = pos(lines, starts, n.lineno, n.col_offset)
+            b = pos(lines, starts, n.end_lineno, n.end_col_offset)
+            if any(a < tb and ta < b for ta, tb in taken):
+                continue
+            edits.append((a, b, 'f"' + body + '"'))
+            taken.append((a, b))
+    return apply_edits(src, edits) if edits else None
+
+
+KINDS = {"rename": k_rename, "swapeq": k_swapeq, "invert": k_invert, "temp": k_temp, "params": k_params, "cmpflip": k_cmpflip, "elseret": k_elseret, "fstring": k_fstring}
 
 
 def run_one(args):
